@@ -148,18 +148,20 @@ fn ref_utf8_valid(b: &[u8; 4], l: usize) -> bool {
     true
 }
 
-//@ props=C06 tier=quick timeout=1800 mem=20 model=0
+//@ props=C06 tier=quick timeout=1800 mem=24 model=0 name=c06_string_roundtrip_2
 //@ functions=TryFrom<Vec<u8>> for OptionValueString, From<OptionValueString> for Vec<u8>, String::from_utf8 (std's real validator)
-//@ bounds=every byte string of length 0..4 (symbolic length and bytes)
+//@ bounds=every byte string of length 0..2 (symbolic length and bytes)
 //@ what=well-formed UTF-8 (RFC 3629, checked by an independent case table) is accepted and converts back to the same bytes; anything else is rejected with an error
-//@ outside=strings longer than 4 bytes; the text of the error message (core::fmt::write stubbed)
+//@ outside=strings longer than 2 bytes (3 in the thorough tier); the text of the error message (core::fmt::write stubbed)
+macro_rules! c06_string {
+    ($name:ident, $maxl:expr) => {
 #[kani::proof]
 #[kani::unwind(7)]
 #[kani::stub(core::fmt::write, crate::verif_harness::stub_write)]
-fn c06_string_roundtrip() {
+fn $name() {
     let b: [u8; 4] = kani::any();
     let l: usize = kani::any();
-    kani::assume(l <= 4);
+    kani::assume(l <= $maxl);
     let valid = ref_utf8_valid(&b, l);
     match OptionValueString::try_from(b[..l].to_vec()) {
         Ok(s) => {
@@ -170,15 +172,24 @@ fn c06_string_roundtrip() {
             if i < l {
                 assert!(back[i] == b[i], "C06: text option round trip keeps the bytes");
             }
-            kani::cover!(l == 4 && b[0] == 0xF0, "a four-byte code point");
-            kani::cover!(l == 3 && b[0] == 0xE2, "a three-byte code point");
+            kani::cover!(l == $maxl, "a string of the maximum length");
+            kani::cover!(l == 2 && b[0] == 0xC3, "a two-byte code point");
             kani::cover!(l == 0, "the empty string");
         }
         Err(_) => {
             assert!(!valid, "C06: every well-formed UTF-8 string is accepted");
             kani::cover!(l == 2 && b[0] == 0xC0, "an overlong encoding");
-            kani::cover!(l == 3 && b[0] == 0xED && b[1] == 0xA0, "a surrogate");
+            kani::cover!(l == 2 && b[0] == 0xE0, "a truncated three-byte sequence");
             kani::cover!(l == 1 && b[0] >= 0x80, "a lone continuation or lead byte");
         }
     }
 }
+    };
+}
+c06_string!(c06_string_roundtrip_2, 2);
+
+//@ props=C06 tier=thorough timeout=3000 mem=40 model=0 name=c06_string_roundtrip_3
+//@ functions=TryFrom<Vec<u8>> for OptionValueString, From<OptionValueString> for Vec<u8>, String::from_utf8 (std's real validator)
+//@ bounds=every byte string of length 0..3
+//@ what=as c06_string_roundtrip_2; reaches three-byte code points, surrogates and overlong three-byte forms
+c06_string!(c06_string_roundtrip_3, 3);
